@@ -118,6 +118,8 @@ func checkC09(c C09Case) h.Outcome {
 // ---- generator 1: arbitrary strings -------------------------------------------------
 
 var hostileConstants = []string{
+	"AwA=", "AQAA//8=", // complete DEFLATE streams with empty output (fixed / stored block)
+	"S0zOTy0GAA==", "eJwDAAAAAAE=",
 	"", " ", "=", "====", "A", "AA==", "PHg+", "PHgvPg==", // <x>, <x/>
 	"<samlp:Response/>", "\x00", "\xff\xfe", strings.Repeat("A", 4096),
 }
@@ -371,7 +373,7 @@ func genC09Cipher(t *rapid.T) C09Cipher {
 	e.Key = rapid.SliceOfN(rapid.Byte(), klen, klen).Draw(t, "cek")
 	e.Detached = rapid.Bool().Draw(t, "detached")
 	e.UseRawCipher = true
-	c.Shape = rapid.SampledFrom([]string{"random", "zeros", "valid-truncated", "bad-pad", "pad-then-zeros", "valid", "empty", "one-block", "short"}).Draw(t, "shape")
+	c.Shape = rapid.SampledFrom([]string{"random", "zeros", "valid-truncated", "bad-pad", "pad-then-zeros", "valid", "valid-hostile-plaintext", "valid-hostile-plaintext", "empty", "one-block", "short"}).Draw(t, "shape")
 	plain := []byte("<saml:Assertion xmlns:saml=\"urn:oasis:names:tc:SAML:2.0:assertion\" ID=\"_x\" Version=\"2.0\"></saml:Assertion>")
 	validKey := klen == 16 || klen == 24 || klen == 32
 	mkValid := func() []byte {
@@ -400,6 +402,29 @@ func genC09Cipher(t *rapid.T) C09Cipher {
 		e.RawCipher = mkValid()
 		if c.Shape == "valid-truncated" && len(e.RawCipher) > 0 {
 			e.RawCipher = e.RawCipher[:rapid.IntRange(0, len(e.RawCipher)-1).Draw(t, "cut")]
+		}
+	case "valid-hostile-plaintext":
+		// a well-formed encryption (valid key wrap, valid tag / padding) of a plaintext that is not an assertion
+		if validKey {
+			v := e
+			v.UseRawCipher = false
+			if v.DataAlg == "" || v.DataAlg == "urn:unknown:alg" || v.DataAlg == types.MethodTripleDESCBC {
+				v.DataAlg = []string{types.MethodAES128GCM, types.MethodAES128CBC, types.MethodAES256GCM}[len(v.Key)%3]
+				if h.KeyLen(v.DataAlg) != len(v.Key) {
+					v.DataAlg = map[int]string{16: types.MethodAES128GCM, 24: types.MethodAES192GCM, 32: types.MethodAES256CBC}[len(v.Key)]
+				}
+				e.DataAlg = v.DataAlg
+			}
+			if h.IsGCM(v.DataAlg) {
+				v.IV = make([]byte, 12)
+			} else {
+				v.IV = make([]byte, 16)
+			}
+			pt := rapid.SampledFrom([][]byte{{}, {0x03, 0x00}, {0x01, 0x00, 0x00, 0xff, 0xff}, []byte("garbage"), []byte("<"), []byte("<a>"), []byte("<?xml version=\"1.0\"?>"), []byte("<!-- only a comment -->"),
+				h.Deflate([]byte("not xml"), 6), h.Deflate([]byte{}, 0), h.Deflate([]byte("<x/>"), 9), []byte("\xef\xbb\xbf"), []byte(" "), []byte("<x/><y/>"), []byte("<saml:Assertion/>"), h.Deflate(h.Deflate([]byte("<x/>"), 6), 6)}).Draw(t, "hostilePlain")
+			if out, err := v.EncryptData(pt); err == nil {
+				e.RawCipher = out
+			}
 		}
 	case "bad-pad":
 		// CBC plaintext whose final (pad-length) byte is hostile
